@@ -120,6 +120,15 @@ type built struct {
 	extra   []*smx509.Certificate // certificates the verifier adds (skipCert)
 	w       *world
 	alt     []byte // staged overwrite "P1": what the caller's content buffer held after the constructor returned
+	extraEE *ee    // the unrelated end entity whose certificate was added (extraCert)
+	direct  bool   // verifyWith parses the slice it is given (a shaped, audited caller buffer) instead of receiving it into the shared receive buffer (parseRx)
+}
+
+func (b *built) parseMsg(msg []byte) (*pkcs7.PKCS7, error) {
+	if b.direct {
+		return pkcs7.Parse(msg)
+	}
+	return parseRx(msg)
 }
 
 var oidExtraAttr = asn1.ObjectIdentifier{1, 2, 3, 4, 5, 6, 16}
@@ -137,6 +146,10 @@ func buildSignedWith(c *mon.Case, w *world, s signedSpec, opt func(i int) eeOpt)
 func buildSignedPlan(c *mon.Case, w *world, s signedSpec, opt func(i int) eeOpt, plan *bufPlan) (*built, error) {
 	b := &built{spec: s, w: w}
 	for i, ss := range s.signers {
+		if plan != nil && plan.likeSigned != nil {
+			b.ees = plan.likeSigned.ees
+			break
+		}
 		e, err := w.newEE(c.R, ss.kind, ss.iss, opt(i))
 		if err != nil {
 			return nil, err
@@ -263,10 +276,16 @@ func buildSignedPlan(c *mon.Case, w *world, s signedSpec, opt func(i int) eeOpt,
 		}
 		if s.extraCert {
 			var x *ee
-			x, err = w.newEE(c.R, kSM2, iSelf, eeOpt{})
+			if plan != nil && plan.likeSigned != nil {
+				x = plan.likeSigned.extraEE
+			}
+			if x == nil {
+				x, err = w.newEE(c.R, kSM2, iSelf, eeOpt{})
+			}
 			if err != nil {
 				return
 			}
+			b.extraEE = x
 			sd.AddCertificate(x.cert)
 		}
 		hc.audit("SignedData.AddSigner")
@@ -344,7 +363,7 @@ func (b *built) verifyWith(msg, content []byte) (p *pkcs7.PKCS7, err error) {
 		if err != nil {
 			return cfcaOpaque, err // the cfca verifiers do not tell a parse failure from a verification failure
 		}
-		p, perr := pkcs7.Parse(msg)
+		p, perr := b.parseMsg(msg)
 		if perr != nil {
 			return nil, fmt.Errorf("cfca verified but pkcs7.Parse fails: %v", perr)
 		}
@@ -353,7 +372,7 @@ func (b *built) verifyWith(msg, content []byte) (p *pkcs7.PKCS7, err error) {
 		}
 		return p, nil
 	}
-	p, err = pkcs7.Parse(msg)
+	p, err = b.parseMsg(msg)
 	if err != nil {
 		return nil, err
 	}
@@ -709,7 +728,7 @@ func roundTripSigned(c *mon.Case, b *built) bool {
 			stage = "parse or verify"
 		}
 		c.Detail("message", b.der)
-		c.Fail("reject", "honest SignedData fails to %s: %v; message: %v", stage, err, b.spec)
+		c.Fail("reject", "honest SignedData fails to %s: %v%s; message: %v", stage, err, rxBlame(func() error { _, e := b.verify(b.der); return e }), b.spec)
 		return false
 	}
 	s := b.spec
@@ -833,7 +852,7 @@ func roundTripSigned(c *mon.Case, b *built) bool {
 				pi = mon.Try(func() { e2 = cfca.VerifyMessageDetach(b.der, bad) })
 			} else {
 				pi = mon.Try(func() {
-					p2, e := pkcs7.Parse(b.der)
+					p2, e := parseRx(b.der)
 					if e != nil {
 						e2 = e
 						return
@@ -914,7 +933,7 @@ func wrongLengthDigest(c *mon.Case, b *built) {
 	var verr error
 	pi := mon.Try(func() {
 		var p *pkcs7.PKCS7
-		if p, verr = pkcs7.Parse(der); verr == nil {
+		if p, verr = parseRx(der); verr == nil {
 			p.Content = short
 			verr = p.VerifyAsDigest()
 		}
